@@ -4,90 +4,146 @@ from __future__ import annotations
 import ast
 
 from .. import astutil as A
+from .. import sym as S
 from ..core import AnalysisError, Collector
-from ..refsmodel import RefClass, ref_classes
-from .common import FnCtx, fnctx
+from ..refterms import RefModel
+from .c04 import model
 
 PROP = "C06"
 FLOORS = {"C06.R1": 10, "C06.R2": 5, "C06.R3": 3, "C06.R4": 20}
 META = {
     "explanation": "Equality of refs is by printed form, hashing by a structural tuple. Per class the fields hashed equal the fields "
-                   "rendered (plus a type discriminator on both sides); rendering is injective per step (item keys with !r, attribute "
-                   "steps with a dot, distinct operator tokens, labels printed); __eq__/__hash__ are defined on BaseRef only, __eq__ "
-                   "compares the full printed forms; every concrete class assigns _hash in the __cinit__ chain that applies to it.",
+                   "rendered (plus a type discriminator on both sides) and a hashed field reaches the text untransformed (no sorting, "
+                   "no set, no filtering other than the documented None marker); rendering is injective per step (item keys with !r, "
+                   "attribute steps with a dot, distinct operator tokens, labels printed) and the same on every path; __eq__/__hash__ "
+                   "are defined on BaseRef only, __eq__ decides by comparing the full printed forms on every path; every concrete "
+                   "class assigns _hash in the __cinit__ chain that applies to it. All compared as symbolic terms.",
     "decides": "hash and equality are functions of the same data, per class; step rendering is injective",
     "not_decided": "separation of all pairs of paths (e.g. an attribute name containing a dot), collision behaviour of key families",
     "assumptions": ["repr() of keys is injective on the key types used (str, int, float, tuple)"],
 }
 
-TYPE_RENDER = {
-    "Ref": "label only", "ObjectAttrRef": "label only", "AttrRef": "owner.key", "ItemRef": "owner[key!r]",
-}
+# contexts in which a hashed field may appear inside the term returned by __repr__ without losing information
+_TRANSPARENT_FUNCS = (("glob", "repr"), ("glob", "str"), ("glob", "isinstance"), ("glob", "list"), ("glob", "tuple"))
+
+
+def repr_fields(rm: RefModel, cname: str):
+    """(sx, fields mentioned by the printed form, [(field, offending context)])"""
+    sx = rm.sx(cname, "__repr__")
+    if sx is None:
+        return None
+    declared = rm.declared(cname)
+    fields, bad = set(), []
+
+    def walk(t, ctx):
+        if not isinstance(t, tuple):
+            return
+        if S.is_attr(t, S.SELF) and t[2] in declared:
+            fields.add(t[2])
+            if ctx is not None:
+                bad.append((t[2], ctx))
+            return
+        if t[:1] == ("call",):
+            f = t[1]
+            inner_ctx = ctx
+            transparent = f in _TRANSPARENT_FUNCS or (f[:1] == ("attr",) and f[2] in ("join", "get", "format", "items")) \
+                or (f[:1] == ("attr",) and S.is_attr(f[1], S.SELF))
+            walk(f, ctx)
+            for a in t[2]:
+                walk(a, ctx if transparent else S.show(t)[:60])
+            for _, a in t[3]:
+                walk(a, ctx if transparent else S.show(t)[:60])
+            return
+        if t[:1] == ("acc",):
+            for c in t[2]:
+                for pol, g in c[1]:
+                    ok_filter = g[:1] == ("cmp",) and g[1] in ("is not", "is") and g[3] == ("const", "None")
+                    walk(g, ctx if ok_filter else f"filter {S.show(g)[:40]}")
+                for x in c[2:]:
+                    walk(x, ctx)
+            return
+        for x in t[1:]:
+            if isinstance(x, tuple):
+                if x and isinstance(x[0], str):
+                    walk(x, ctx)
+                else:
+                    for y in x:
+                        if isinstance(y, tuple):
+                            if y and isinstance(y[0], str):
+                                walk(y, ctx)
+                            else:
+                                for z in y:
+                                    walk(z, ctx)
+    for ev in sx.events:
+        if ev.kind == "return" and ev.value is not None:
+            walk(ev.value, None)
+    return sx, fields, bad
 
 
 def _same_data(col, rule="C06.R1"):
-    repo = col.repo
+    rm = model(col)
     seen = set()
-    for rc in ref_classes(repo):
-        if rc.abstract and rc.name not in ("BinOpExpr", "UnaryOpExpr"):
+    for c in rm.classes:
+        if rm.abstract(c.name) and c.name not in ("BinOpExpr", "UnaryOpExpr"):
             continue
-        h = rc.hash_def()
-        rp = rc.repr_info()
+        h = rm.hash_tuple(c.name)
+        rp = repr_fields(rm, c.name)
         if h is None or rp is None:
-            if not rc.abstract:
-                col.fail(rule, f"{rc.name}#hash-and-repr-exist", rc.c.module.loc(rc.c.node), "class has a _hash and a __repr__", "")
+            if not rm.abstract(c.name):
+                col.fail(rule, f"{c.name}#hash-and-repr-exist", c.module.loc(c.node), "class has a _hash and a __repr__", "")
             continue
-        key = (id(h[1]), id(rp[1]))
+        key = (h[0].name, rm.defining(c.name, "__repr__").name)
         if key in seen:
             continue
         seen.add(key)
-        hf, disc, unk = rc.hash_fields()
-        rf = {f for f in rp[2] if f in rc.declared}
-        extra_repr_consts = {f for f in rp[2] if f not in rc.declared}
-        if rc.name in ("Ref", "ObjectAttrRef"):
-            # the container itself (_owner) is deliberately neither hashed nor printed: the label identifies it
-            pass
+        hf, disc, unk = rm.hash_fields(c.name)
+        rsx, rf, bad = rp
         hf_cmp = hf - {"_manager"}
         ok = hf_cmp == rf and not unk
-        col.add(rule, f"{rc.name}#hash-fields==repr-fields", ok, rc.c.module.loc(rp[1]),
+        col.add(rule, f"{c.name}#hash-fields==repr-fields", ok, rsx.loc(rsx.fn),
                 "the fields in the _hash tuple are exactly the fields rendered by __repr__ (equal text <=> equal hash input)",
-                f"hashed {sorted(hf_cmp)}{' +type' if disc else ''}; rendered {sorted(rf)} (+{sorted(extra_repr_consts)}); unrecognised hash elements {unk}")
-        # type discriminator: either in the hash tuple or implied by a hashed field that is rendered as the callable name
+                f"hashed {sorted(hf_cmp)}{' +type' if disc else ''}; rendered {sorted(rf)}; unrecognised hash elements {unk}")
+        lossy = [(f, ctx) for f, ctx in bad if f in hf_cmp]
+        col.add(rule, f"{c.name}#hashed-fields-printed-untransformed", not lossy, rsx.loc(rsx.fn),
+                "a hashed field reaches the printed form as it is (element order and multiplicity kept: no sorted/set/filter), so "
+                "equal texts come from equal hash inputs", f"{lossy}")
         disc_ok = disc or ("_op" in hf) or ("_func" in hf)
-        col.add(rule, f"{rc.name}#type-discriminator", disc_ok, rc.c.module.loc(h[2]),
-                "the hash distinguishes node kinds that print differently (class in the tuple, or the hashed callable)", A.src(h[2]))
+        col.add(rule, f"{c.name}#type-discriminator", disc_ok, h[1].loc(h[2]),
+                "the hash distinguishes node kinds that print differently (class in the tuple, or the hashed callable)", S.show(h[2].value))
+
+
+def _template_of(rm: RefModel, cname: str):
+    """(sx, [(skeleton, holes)] one per return alternative) of cname.__repr__"""
+    sx = rm.sx(cname, "__repr__")
+    if sx is None:
+        raise AnalysisError(f"{cname}.__repr__ vanished")
+    out = []
+    for ev in sx.of_kind("return"):
+        for a in S.alts(ev.value):
+            out.append(S.template(a) if S.template(a) is not None else a)
+    return sx, out
 
 
 def _injective(col, rule="C06.R2"):
     repo = col.repo
-    cx = fnctx(repo, "ItemRef", "__repr__")
-    rets = [n.value for n in A.walk(cx.fn) if isinstance(n, ast.Return)]
-    ok = len(rets) == 1 and isinstance(rets[0], ast.JoinedStr)
-    facts = A.src(rets[0]) if rets else ""
-    if ok:
-        parts = rets[0].values
-        fv = [p for p in parts if isinstance(p, ast.FormattedValue)]
-        lits = "".join(p.value for p in parts if isinstance(p, ast.Constant))
-        ok = len(fv) == 2 and A.self_attr(fv[0].value) == "_owner" and A.self_attr(fv[1].value) == "_key" and \
-            fv[1].conversion == ord("r") and lits == "[]" and isinstance(parts[-1], ast.Constant) and parts[-1].value == "]"
-    col.add(rule, "ItemRef.__repr__#key-with-repr-in-brackets", ok, cx.loc(cx.fn),
-            "an item step prints as owner[<repr of key>]: keys 1 and '1' differ, quotes and brackets inside string keys are escaped by repr",
-            facts)
-    cx = fnctx(repo, "AttrRef", "__repr__")
-    rets = [n.value for n in A.walk(cx.fn) if isinstance(n, ast.Return)]
-    ok = len(rets) == 1 and isinstance(rets[0], ast.JoinedStr)
-    if ok:
-        parts = rets[0].values
-        fv = [p for p in parts if isinstance(p, ast.FormattedValue)]
-        lits = "".join(p.value for p in parts if isinstance(p, ast.Constant))
-        ok = len(fv) == 2 and A.self_attr(fv[0].value) == "_owner" and A.self_attr(fv[1].value) == "_key" and lits == "."
-    col.add(rule, "AttrRef.__repr__#dot-step", ok, cx.loc(cx.fn), "an attribute step prints as owner.key (distinct from any item step)",
-            A.src(rets[0]) if rets else "")
-    cx = fnctx(repo, "Ref", "__repr__")
-    rets = [n.value for n in A.walk(cx.fn) if isinstance(n, ast.Return)]
-    col.add(rule, "Ref.__repr__#label", len(rets) == 1 and A.self_attr(rets[0]) == "_key", cx.loc(cx.fn),
-            "a container ref prints its label", A.src(rets[0]) if rets else "")
-    for base in ("BinOpExpr", "UnaryOpExpr"):
+    rm = model(col)
+    owner, key = S.sattr("_owner"), S.sattr("_key")
+
+    def tmpl_is(t, skel, holes):
+        return isinstance(t, tuple) and len(t) == 2 and isinstance(t[0], str) and t[0] == skel and \
+            [h[1] for h in t[1]] == [h[1] for h in holes] and all(h[0] in want[0] for h, want in zip(t[1], holes))
+    sx, ts = _template_of(rm, "ItemRef")
+    ok = bool(ts) and all(tmpl_is(t, "{}[{}]", [(("", "!r", "!s"), owner), (("!r",), key)]) for t in ts)
+    col.add(rule, "ItemRef.__repr__#key-with-repr-in-brackets", ok, sx.loc(sx.fn),
+            "an item step prints as owner[<repr of key>] on every path: keys 1, '1' and (1,) differ, quotes and brackets inside "
+            "string keys are escaped by repr", str([t if not isinstance(t[0], str) else t[0] for t in ts])[:200])
+    sx, ts = _template_of(rm, "AttrRef")
+    ok = bool(ts) and all(tmpl_is(t, "{}.{}", [(("", "!r", "!s"), owner), (("", "!s"), key)]) for t in ts)
+    col.add(rule, "AttrRef.__repr__#dot-step", ok, sx.loc(sx.fn), "an attribute step prints as owner.key (distinct from any item step)", "")
+    sx, ts = _template_of(rm, "Ref")
+    col.add(rule, "Ref.__repr__#label", bool(ts) and all(t == key or t == S.fcall("str", key) for t in ts), sx.loc(sx.fn),
+            "a container ref prints its label", "")
+    for base, skel, fields in (("BinOpExpr", "({} {} {})", ("_lhs", "_op_str", "_rhs")), ("UnaryOpExpr", "({}{})", ("_op_str", "_arg"))):
         toks = {}
         for c in repo.subclasses(base):
             t = A.const(repo.class_const(c, "_op_str"))
@@ -95,83 +151,77 @@ def _injective(col, rule="C06.R2"):
         dup = {t: v for t, v in toks.items() if len(v) > 1 or not isinstance(t, str)}
         col.add(rule, f"{base}#distinct-op-tokens", not dup and len(toks) >= 3, repo.cls(base).module.loc(repo.cls(base).node),
                 f"subclasses of {base} print pairwise distinct operator tokens", str(dup))
-        cx = fnctx(repo, base, "__repr__")
-        rets = [n.value for n in A.walk(cx.fn) if isinstance(n, ast.Return)]
-        ok = len(rets) == 1 and isinstance(rets[0], ast.JoinedStr)
-        if ok:
-            parts = rets[0].values
-            first, last = parts[0], parts[-1]
-            ok = isinstance(first, ast.Constant) and first.value.startswith("(") and isinstance(last, ast.Constant) and last.value.endswith(")")
-            order = [A.self_attr(p.value) for p in parts if isinstance(p, ast.FormattedValue)]
-            ok = ok and order == (["_lhs", "_op_str", "_rhs"] if base == "BinOpExpr" else ["_op_str", "_arg"])
-        col.add(rule, f"{base}.__repr__#parenthesised-in-order", ok, cx.loc(cx.fn),
+        sx, ts = _template_of(rm, base)
+        ok = bool(ts) and all(tmpl_is(t, skel, [(("", "!s", "!r"), S.sattr(f)) for f in fields]) for t in ts)
+        col.add(rule, f"{base}.__repr__#parenthesised-in-order", ok, sx.loc(sx.fn),
                 f"{base} prints `(` operands and operator in evaluation order `)`: nested expressions of different structure print differently",
-                A.src(rets[0]) if rets else "")
-    cx = fnctx(repo, "LiteralExpr", "__repr__")
-    rets = [n.value for n in A.walk(cx.fn) if isinstance(n, ast.Return)]
-    ok = len(rets) == 1 and isinstance(rets[0], ast.Call) and A.call_name(rets[0]) == "repr" and A.self_attr(rets[0].args[0]) == "_arg"
-    col.add(rule, "LiteralExpr.__repr__#repr-of-literal", ok, cx.loc(cx.fn), "a literal prints as its repr", "")
+                str([t[0] if isinstance(t[0], str) else S.show(t) for t in ts])[:200])
+        # a subclass that prints differently must still parenthesise (C11/C13 rely on it); none today
+        for c in repo.subclasses(base):
+            if "__repr__" in c.methods:
+                sx2, ts2 = _template_of(rm, c.name)
+                ok2 = bool(ts2) and all(isinstance(t[0], str) and t[0].startswith("(") and t[0].endswith(")") for t in ts2)
+                col.add(rule, f"{c.name}.__repr__#parenthesised", ok2, sx2.loc(sx2.fn), f"{c.name} prints fully parenthesised", "")
+    sx, ts = _template_of(rm, "LiteralExpr")
+    col.add(rule, "LiteralExpr.__repr__#repr-of-literal", bool(ts) and all(t == S.fcall("repr", S.sattr("_arg")) for t in ts), sx.loc(sx.fn),
+            "a literal prints as its repr", "")
 
 
 def _eq_hash_pairing(col, rule="C06.R3"):
-    repo = col.repo
-    for rc in ref_classes(repo):
-        if rc.name == "BaseRef":
+    rm = model(col)
+    bad = False
+    for c in rm.classes:
+        if c.name == "BaseRef":
             continue
-        own = {m for m in ("__eq__", "__hash__", "__ne__") if m in rc.c.methods}
+        own = {m for m in ("__eq__", "__hash__", "__ne__") if m in c.methods}
         if own:
-            col.add(rule, f"{rc.name}#no-eq-hash-override", False, rc.c.module.loc(rc.c.methods[sorted(own)[0]]),
+            bad = True
+            col.add(rule, f"{c.name}#no-eq-hash-override", False, c.module.loc(c.methods[sorted(own)[0]]),
                     "__eq__/__hash__ are defined once, on BaseRef (a subclass overriding one of them breaks equal => equal hashes)", str(sorted(own)))
-    col.ok(rule, "BaseRef-subclasses#no-eq-hash-override", "xdeps/refs.py", "no subclass overrides __eq__/__hash__", "") \
-        if not any(o.rule == rule and not o.ok for o in col.obs) else None
-    cx = fnctx(repo, "BaseRef", "__hash__")
-    rets = [n.value for n in A.walk(cx.fn) if isinstance(n, ast.Return)]
-    col.add(rule, "BaseRef.__hash__#returns-_hash", len(rets) == 1 and A.self_attr(rets[0]) == "_hash", cx.loc(cx.fn),
+    if not bad:
+        col.ok(rule, "BaseRef-subclasses#no-eq-hash-override", "xdeps/refs.py", "no subclass overrides __eq__/__hash__", "")
+    sx = rm.sx("BaseRef", "__hash__")
+    rets = sx.of_kind("return")
+    col.add(rule, "BaseRef.__hash__#returns-_hash", bool(rets) and all(r.value == S.sattr("_hash") for r in rets), sx.loc(sx.fn),
             "__hash__ returns the structural hash computed at construction", "")
-    cx = fnctx(repo, "BaseRef", "__eq__")
-    op = A.params(cx.fn)[1]
-    rets = [n for n in cx.cfg.nodes.values() if n.kind == "stmt" and isinstance(n.ast, ast.Return)]
-
-    def printed(e, who):
-        return isinstance(e, ast.Call) and A.call_name(e) in ("str", "repr") and len(e.args) == 1 and A.dotted(e.args[0]) == who
-
-    def identity_test(t):
-        p = A.compare_parts(t)
-        return bool(p and isinstance(p[1], ast.Is) and {A.dotted(p[0]), A.dotted(p[2])} == {"self", op})
-    n_printed = 0
-    bad = []
+    sx = rm.sx("BaseRef", "__eq__")
+    other = sx.P(0)
+    rets = sx.of_kind("return")
+    n_printed, facts = 0, []
+    same = ("cmp", "is", S.SELF, other)
     for r in rets:
-        v = r.ast.value
-        p = A.compare_parts(v) if v is not None else None
-        if p and isinstance(p[1], ast.Eq) and ((printed(p[0], "self") and printed(p[2], op)) or (printed(p[2], "self") and printed(p[0], op))) \
-                and A.call_name(p[0]) == A.call_name(p[2]):
-            others = [g for g in cx.cfg.guards(r.id) if not (g.kind == "F" and identity_test(g.ast))]
-            if others:
-                bad.append(f"printed-form comparison only under {[A.src(g.ast) for g in others]}")
-            n_printed += 1
-        elif A.is_const(v, True) and any(g.kind == "T" and identity_test(g.ast) for g in cx.cfg.guards(r.id)) and len(cx.cfg.guards(r.id)) == 1:
-            pass  # identity shortcut: the same object prints the same
-        else:
-            bad.append(f"returns {A.src(v)} under {[g.kind + ':' + A.src(g.ast) for g in cx.cfg.guards(r.id)]}")
-    falls = cx.cfg.path_avoiding(cx.cfg.ENTRY, cx.cfg.EXIT, [r.id for r in rets])
-    col.add(rule, "BaseRef.__eq__#compares-printed-forms", n_printed >= 1 and not bad and not falls, cx.loc(cx.fn),
-            "__eq__ decides by comparing the complete printed forms of both sides (an identity shortcut is the only other answer allowed)",
-            "; ".join(bad))
+        conds = [c for c in sx.conds(r.nid)]
+        for a in S.alts(r.value):
+            printed = any(a in (("cmp", "==", S.fcall(f, S.SELF), S.fcall(f, other)), ("cmp", "==", S.fcall(f, other), S.fcall(f, S.SELF)))
+                          for f in ("str", "repr"))
+            if printed:
+                n_printed += 1
+                rest = [c for c in conds if c not in (("cmp", "is not", S.SELF, other), ("cmp", "is not", other, S.SELF))]
+                if rest:
+                    facts.append(f"printed-form comparison only under {[S.show(c) for c in rest]}")
+            elif a == ("const", "True") and any(c in (same, ("cmp", "is", other, S.SELF)) for c in conds) and len(conds) == 1:
+                pass    # identity shortcut: the same object prints the same
+            elif a == ("glob", "NotImplemented") and any(S.match(c, ("uop", "not", S.fcall("isinstance", other, S.ANY))) is not None for c in conds):
+                pass
+            else:
+                facts.append(f"returns {S.show(a)} under {[S.show(c) for c in conds]}")
+    falls = sx.cfg.path_avoiding(sx.cfg.ENTRY, sx.cfg.EXIT, [r.nid for r in rets])
+    col.add(rule, "BaseRef.__eq__#compares-printed-forms", n_printed >= 1 and not facts and not falls, sx.loc(sx.fn),
+            "__eq__ decides by comparing the complete printed forms of both sides on every path (an identity shortcut is the only "
+            "other answer allowed)", "; ".join(facts))
 
 
 def _hash_assigned(col, rule="C06.R4"):
-    repo = col.repo
-    for rc in ref_classes(repo):
-        if rc.abstract:
+    rm = model(col)
+    for c in rm.classes:
+        if rm.abstract(c.name):
             continue
-        h = rc.hash_def()
+        h = rm.hash_tuple(c.name)
         ok = h is not None and h[3] is not None
         if ok:
-            k, fn, st, _ = h
-            cx = FnCtx(k.module, k, fn)
-            nid = cx.cfg.node_of(st)
-            ok = nid is not None and cx.cfg.must_pass(cx.cfg.ENTRY, cx.cfg.EXIT, [nid])
-        col.add(rule, f"{rc.name}#_hash-assigned", ok, rc.c.module.loc(rc.c.node),
+            k, sx, ev, _ = h
+            ok = sx.cfg.must_pass(sx.cfg.ENTRY, sx.cfg.EXIT, [ev.nid])
+        col.add(rule, f"{c.name}#_hash-assigned", ok, c.module.loc(c.node),
                 "the __cinit__ chain of the class assigns _hash = hash((...)) on every path", "")
 
 
